@@ -822,6 +822,9 @@ func main() {
 	if *corpus != "" {
 		ents, _ := os.ReadDir(*corpus)
 		for _, e := range ents {
+			if *focus == "c06" && !strings.HasPrefix(e.Name(), "proofdrv-") {
+				continue // the directory is shared with dbdrv
+			}
 			if lines, err := hlib.ReadLines(*corpus + "/" + e.Name()); err == nil && len(lines) > 0 {
 				runOne(lines, 0, false)
 				res.Count("corpus")
